@@ -33,7 +33,7 @@ LIVE = "sensor_level >= 0"
 
 def site(rng, k):
     """A fold site: returns dict(kind, decl(var form), use_lit, use_var, var, mutate(value-change line), finding keys)."""
-    kinds = ["sleep", "brightness", "blink", "len-str", "len-list", "flash-pattern", "glyph", "rgb", "fade", "ultra-model", "servo-bounds", "range-count", "expr-fold", "const-arith"]
+    kinds = ["sleep", "brightness", "blink", "len-str", "len-list", "flash-pattern", "glyph", "rgb", "fade", "ultra-model", "servo-bounds", "range-count", "expr-fold", "const-arith", "param-shadow", "led-rebind", "swap-fold"]
     kind = kinds[k % len(kinds)]
     v = f"v{k}"
     if kind == "sleep":
@@ -55,9 +55,11 @@ def site(rng, k):
         a, b = rng.choice([([1, 0, 1], [0, 1, 0]), ([1, 128, 0], [255, 0, 1]), ([1, 0], [0, 1, 1])])
         return dict(kind=kind, var=v, decl=f"{v} = {a}", lit=f"led.flash_pattern({a}, 3)", use=f"led.flash_pattern({v}, 3)", expr=None, mut=f"{v} = {b}", mut_lit=f"led.flash_pattern({b}, 3)", stale="KF-stale-flash-pattern")
     if kind == "glyph":
-        a = [rng.choice([0, 31, 17, 4, 10]) for _ in range(8)]
-        b = [31 - x for x in a]
-        return dict(kind=kind, var=v, decl=f"{v} = {a}", lit=f"lcd.glyph(1, {a})", use=f"lcd.glyph(1, {v})", expr=None, mut=f"{v} = {b}", mut_lit=f"lcd.glyph(1, {b})", stale="KF-stale-glyph")
+        rows = [rng.choice([0, 31, 17, 4, 10]) for _ in range(7)]
+        a, b = rng.choice([(17, 4), (0, 31), (21, 10)])
+        def g(x):
+            return "[" + ", ".join([str(x)] + [str(r) for r in rows]) + "]"
+        return dict(kind=kind, var=v, decl=f"{v} = {a}", lit=f"lcd.glyph(1, {g(a)})", use=f"lcd.glyph(1, {g(v)})", expr=f"lcd.glyph(1, {g(str(a) + ' + 0')})", mut=f"{v} = {b}", mut_lit=f"lcd.glyph(1, {g(b)})", stale="KF-stale-glyph")
     if kind == "rgb":
         a, b = rng.choice([(200, 10), (0, 255)])
         return dict(kind=kind, var=v, decl=f"{v} = {a}", lit=f"rgb.set_color({a}, 5, 6)", use=f"rgb.set_color({v}, 5, 6)", expr=f"rgb.set_color({a} - 0, 5, 6)", mut=f"{v} = {b}", mut_lit=f"rgb.set_color({b}, 5, 6)")
@@ -72,6 +74,34 @@ def site(rng, k):
     if kind == "range-count":
         a, b = rng.choice([(3, 1), (2, 4)])
         return dict(kind=kind, var=v, decl=f"{v} = {a}", lit=f"for q{k} in range({a}):\n    mon.write(q{k})", use=f"for q{k} in range({v}):\n    mon.write(q{k})", expr=f"for q{k} in range({a} + 0):\n    mon.write(q{k})", mut=f"{v} = {b}", mut_lit=f"for q{k} in range({b}):\n    mon.write(q{k})")
+    if kind == "param-shadow":
+        # a helper parameter named like a top-level constant: inside the helper the parameter's run-time value counts
+        g, arg = rng.choice([("hello", "hi"), ("abcd", "x"), ("", "four")])
+        pre = f'msg{k} = "{g}"\ndef show{k}(msg{k}: str):\n    mon.write(len(msg{k}))\n    sleep(len(msg{k}) * 10)\n'
+        lit = pre.replace(f"len(msg{k})", str(len(arg))) + f'show{k}("{arg}")'
+        use = pre + f'show{k}("{arg}")'
+        return dict(kind=kind, var=v, decl=f"{v} = 0", lit=lit, use=use, expr=use, mut=None, mut_lit=None, whole=True)
+    if kind == "led-rebind":
+        # the same Led name bound twice: operations before the re-binding act on the first pin
+        p1, p2 = rng.choice([(6, 8), (16, 17)])
+        use = f"ld{k} = Led({p1})\nld{k}.on()\nsleep(2)\nld{k} = Led({p2 - 2} + 2)\nld{k}.on()\nld{k}.off()"
+        lit = f"la{k} = Led({p1})\nla{k}.on()\nsleep(2)\nlb{k} = Led({p2})\nlb{k}.on()\nlb{k}.off()"
+        return dict(kind=kind, var=v, decl=f"{v} = 0", lit=lit, use=use, expr=use, mut=None, mut_lit=None, whole=True)
+    if kind == "swap-fold":
+        # after a parallel assignment the transpile-time view of the names must be the swapped one
+        a, b = rng.choice([("ab", "wxyz"), ("", "q")])
+        x, y = rng.choice([(3, 5), (0, 17)])
+        form = rng.choice(["swap", "fib"])
+        if form == "swap":
+            nx, ny = y, x
+            tup = f"x{k}, y{k} = y{k}, x{k}"
+        else:
+            nx, ny = y, x + y
+            tup = f"x{k}, y{k} = y{k}, x{k} + y{k}"
+        use = (f's{k} = "{a}"\nt{k} = "{b}"\ns{k}, t{k} = t{k}, s{k}\nmon.write(len(t{k}))\nsleep(len(s{k}) * 10 + 1)\n'
+               f"x{k} = {x}\ny{k} = {y}\n{tup}\npa{k} = [x{k}, y{k}, 1]\nled.flash_pattern(pa{k}, 2)\nsleep(y{k} + 1)")
+        lit = f'mon.write({len(a)})\nsleep({len(b) * 10 + 1})\nled.flash_pattern({[nx, ny, 1]}, 2)\nsleep({ny + 1})'
+        return dict(kind=kind, var=v, decl=f"{v} = 0", lit=lit, use=use, expr=use, mut=None, mut_lit=None, whole=True)
     if kind == "const-arith":
         # name-free arithmetic in folded argument positions: the baked literal must be what Python computes
         exprs = ["1000 + (-250 // 3)", "250 // -4 + 100", "(-7) % 3 + 10", "7 % -3 + 10", "2 ** 5", "3 << 2", "-17 // 5 + 20", "int(7 / 2) + 1",
@@ -104,6 +134,9 @@ def make_pair(rng, idx):
     finding = None
 
     def place(lines_pre, lines_use):
+        if s.get("whole"):
+            # helper definitions / device declarations: always at top level, no main loop
+            return "\n".join(HDR.splitlines() + lines_use + ['mon.write("@done")']) + "\n"
         L = HDR.splitlines() + lines_pre
         use = lines_use + ([s["after"]] if s.get("after") else []) + ['mon.write("@done")']
         if where == "setup" or s["kind"] in ("ultra-model", "servo-bounds"):
@@ -188,7 +221,7 @@ def run_pair(case):
             out["discard"] = f"python: {p.get('py_exc')} / {q.get('py_exc')}"
         else:
             # python cannot tell P and P' apart
-            keep = ("SER",) if kind == "ultra-model" else ("SER", "LVL", "SERVO", "PASS")
+            keep = ("SER",) if kind == "ultra-model" else ("SER", "LVL", "SERVO", "PASS", "GLYPH")
             pm_p = trace.dedupe_levels(trace.py_model(p["py_events"], keep=keep))
             pm_q = trace.dedupe_levels(trace.py_model(q["py_events"], keep=keep))
             d0 = trace.compare(pm_p, pm_q)
@@ -233,6 +266,8 @@ def main() -> int:
             continue
         rep.case(label + str(case[0]), res.get("compared", 0) > 0)
         rep.count("executions", 4)
+        if res.get("compared", 0) > 0:
+            rep.count("compared:" + res["site"])
         w = {"P.py": res["P"], "Pprime.py": res["Q"], "sketch.cpp": res.get("cppQ") or "", "detail.json": json.dumps({k: res.get(k) for k in ("transformation", "site", "problems", "status")}, indent=1, default=str)}
         for key, msg in res["problems"]:
             fid = res.get("finding")
@@ -242,8 +277,11 @@ def main() -> int:
                 rep.violation(f"{label}: {msg}", w, key=f"{key}:{res['transformation']}:{res['site']}")
         if len(rep.samples) < 4 and case[0] % 17 == 0:
             rep.sample({"transformation": res["transformation"], "site": res["site"], "P_tail": res["P"][-250:], "Pprime_tail": res["Q"][-330:]})
+    for k in sorted(c for c in rep.counters if c.startswith("site:")):
+        if not rep.counters.get("compared:" + k[5:]):
+            rep.inconclusive_because(f"fold site {k[5:]}: no pair reached the four-way comparison (all rejected or discarded)")
     witness.check_witnesses(rep)
-    rep.rule = ("pairs (P, P') over 13 fold sites (sleep, brightness, blink, len of str, len of list, flash pattern, glyph bitmap, RGB colour, fade duration/steps, "
+    rep.rule = ("pairs (P, P') over 17 fold sites (sleep, brightness, blink, len of str, len of list, flash pattern, glyph bitmap, RGB colour, fade duration/steps, "
                 "ultrasonic model name, servo bounds, range count, arithmetic) x transformations {literal -> variable, literal -> name-free expression, mutation "
                 "in a branch never taken at run time, mutation in a loop run 0 times, mutation in a branch always taken (vs the program written with the new "
                 "literal)}, in setup() or the main loop; branch conditions read a scripted analog input so the folder cannot decide them. All four executions must "
